@@ -164,7 +164,7 @@ partial def loop (hs ht : IO.FS.Handle) (cfg : Cfg) (n drift : Nat) : IO (Nat ×
       IO.println s!"X {sc.id} bad trace: {e}"
       loop hs ht cfg (n + 1) (drift + 1)
     | some p, some ops, .ok impl => do
-      let model := runOps p ops (mkEnv p sc) none
+      let model := runOps p sc.scribble ops (mkEnv p sc) none
       if !cfg.props.isEmpty then
         let ai := Oracle.panelVerdicts cfg.f cfg.props p sc sc.ops ops impl model
         for (pr, n) in ai.evals do
